@@ -6,9 +6,12 @@ import (
 	"context"
 	"fmt"
 	"math/big"
+	"runtime"
 	"sort"
 	"strconv"
 	"strings"
+	"sync"
+	"time"
 
 	"github.com/gauss-project/aurorafs/pkg/settlement/traffic"
 	chequePkg "github.com/gauss-project/aurorafs/pkg/settlement/traffic/cheque"
@@ -26,8 +29,11 @@ func (prop) Rule() string {
 	return "cases: 3 peers (ids 0-2) registered with chain addresses 1-3 (keys), then 6-40 ops: cheques delivered through Service.ReceiveCheque " +
 		"(valid increasing, replay of an earlier line, equal, decreasing, wrong recipient, wrong signer, corrupted/truncated/empty signature, " +
 		"validly signed by registered issuer B but delivered by peer A, signed by an unregistered key, delivered by an unregistered peer, huge amounts), " +
-		"direct ChequeStore.ReceiveCheque calls, LastReceivedCheque and TrafficCheques observations, rare re-registration; fixed regression cases " +
-		"fix-foreign-issuer* first. Non-trivial: >=1 valid cheque, >=1 adversarial cheque and >=1 observation; distinct by op-list hash."
+		"direct ChequeStore.ReceiveCheque calls, LastReceivedCheque and TrafficCheques observations, rare re-registration; " +
+		"signature reuse (xrecv/sxrecv: a cheque carrying exactly the signature bytes of an earlier accepted cheque with another cumulative payout / recipient / " +
+		"issuer); parrecv: 2-3 cheques of one issuer (the same cheque twice, increasing, decreasing, one invalid) delivered concurrently to the cheque store or " +
+		"through the service, with the reads of the last-cheque record parked until every delivery has read, waits for a lock or has returned; fixed regression " +
+		"cases fix-foreign-issuer*, fix-reused-signature, fix-concurrent-replay* first. Non-trivial: >=1 valid cheque, >=1 adversarial cheque and >=1 observation; distinct by op-list hash."
 }
 
 const (
@@ -38,12 +44,17 @@ const (
 func (prop) Gen(r *core.Rand, tier string) []core.Case {
 	n := 300
 	if tier == "thorough" {
-		n = 6000
+		n = 4000 // every case leaks the service's two background goroutines, and parrecv inspects all goroutine stacks
 	}
 	cs := []core.Case{
 		{ID: "fix-foreign-issuer", NT: true, Ops: []string{"reg 0 1", "reg 1 2", "recv 0 2 0 77 2 0", "cheques", "last 0", "last 1"}},
 		{ID: "fix-foreign-issuer-then-own", NT: true, Ops: []string{"reg 0 1", "reg 1 2", "recv 1 2 0 50 2 0", "recv 0 2 0 77 2 0", "recv 0 1 0 10 1 0", "cheques", "last 0", "last 1"}},
 		{ID: "fix-wrong-recipient-own-issuer", NT: true, Ops: []string{"reg 0 1", "recv 0 1 5 10 1 0", "cheques", "last 0"}},
+		{ID: "fix-reused-signature", NT: true, Ops: []string{"reg 0 1", "recv 0 1 0 10 1 0", "recv 0 1 0 10 1 0", "xrecv 0 1 0 1000 1 0 10 1", "last 0", "recv 0 1 0 25 1 0", "cheques", "last 0"}},
+		{ID: "fix-reused-signature-store", NT: true, Ops: []string{"reg 0 1", "srecv 1 0 10 1 0", "sxrecv 1 0 1000 1 0 10 1", "sxrecv 2 0 50 1 0 10 1", "sxrecv 1 5 50 1 0 10 1", "srecv 1 0 25 1 0", "last 0"}},
+		{ID: "fix-concurrent-replay", NT: true, Ops: []string{"reg 0 1", "parrecv s 2 1 0 10 1 0 1 0 10 1 0", "last 0", "srecv 1 0 10 1 0"}},
+		{ID: "fix-concurrent-increasing", NT: true, Ops: []string{"reg 0 1", "parrecv s 2 1 0 10 1 0 1 0 20 1 0", "last 0", "srecv 1 0 20 1 0", "last 0"}},
+		{ID: "fix-concurrent-replay-service", NT: true, Ops: []string{"reg 0 1", "parrecv 0 3 1 0 10 1 0 1 0 10 1 0 1 0 30 1 0", "cheques", "last 0"}},
 		{ID: "fix-replay-reorder", NT: true, Ops: []string{"reg 0 1", "recv 0 1 0 10 1 0", "recv 0 1 0 30 1 0", "recv 0 1 0 10 1 0", "recv 0 1 0 30 1 0", "recv 0 1 0 20 1 0", "cheques", "last 0"}},
 	}
 	for i := 0; i < n; i++ {
@@ -54,6 +65,11 @@ func (prop) Gen(r *core.Rand, tier string) []core.Case {
 		}
 		fwd := map[int]int{0: 1, 1: 2, 2: 3}
 		var sent []string
+		type gen struct {
+			ben int
+			cum *big.Int
+		}
+		var genuine []gen // cheques the generator expects to be accepted (their signatures get reused)
 		valid, adv, obs := 0, 0, 0
 		nops := r.Range(6, 40)
 		cumOf := func(a int) *big.Int {
@@ -76,12 +92,13 @@ func (prop) Gen(r *core.Rand, tier string) []core.Case {
 			if r.Chance(5) {
 				inc = new(big.Int).Lsh(big.NewInt(int64(r.Range(1, 9))), uint(r.Range(60, 90)))
 			}
-			switch r.Intn(20) {
+			switch r.Intn(24) {
 			case 0, 1, 2, 3, 4, 5, 6: // valid, increasing
 				cum := new(big.Int).Add(cumOf(a), inc)
 				l := line(a, 0, cum, a, 0)
 				last[a] = cum
 				sent = append(sent, l)
+				genuine = append(genuine, gen{a, cum})
 				c.Ops = append(c.Ops, l)
 				valid++
 			case 7: // replay of an earlier line (possibly through another peer: the line is kept as is)
@@ -137,6 +154,66 @@ func (prop) Gen(r *core.Rand, tier string) []core.Case {
 					c.Ops = append(c.Ops, "cheques")
 					obs++
 				}
+			case 20, 21: // signature reuse: an earlier genuine cheque's signature on different content
+				if len(genuine) > 0 {
+					g := genuine[r.Intn(len(genuine))]
+					nb, nr, nc := g.ben, 0, new(big.Int).Add(cumOf(g.ben), inc)
+					switch r.Intn(5) {
+					case 0:
+						nb = fwd[(p+1)%3] // another issuer
+					case 1:
+						nr = r.Pick([]int{1, 4, 5}) // another recipient
+					case 2:
+						nc = new(big.Int).Add(g.cum, big.NewInt(int64(r.Range(0, 1)))) // same / +1
+					}
+					xv := "xrecv " + strconv.Itoa(p) + " "
+					if verb == "srecv " {
+						xv = "sxrecv "
+					}
+					c.Ops = append(c.Ops, fmt.Sprintf("%s%d %d %s %d 0 %s %d", xv, nb, nr, nc.String(), g.ben, g.cum.String(), g.ben))
+					adv++
+				}
+			case 22, 23: // concurrent deliveries of cheques of one issuer (costly: about half as often as a signature reuse)
+				if !r.Chance(55) {
+					c.Ops = append(c.Ops, "cheques")
+					obs++
+					break
+				}
+				k := r.Range(2, 3)
+				via := strconv.Itoa(p)
+				if r.Chance(60) {
+					via = "s"
+				}
+				l := fmt.Sprintf("parrecv %s %d", via, k)
+				base := new(big.Int).Add(cumOf(a), inc)
+				hi := cumOf(a)
+				for j := 0; j < k; j++ {
+					cum, signer, mut := base, a, 0
+					switch r.Intn(6) {
+					case 0, 1: // the same cheque again
+					case 2, 3:
+						cum = new(big.Int).Add(base, big.NewInt(int64(r.Range(1, 30)*(j+1))))
+					case 4:
+						cum = cumOf(a) // not increasing
+					case 5:
+						if r.Bool() {
+							signer = (a + 1) % 6
+						} else {
+							mut = r.Range(1, 3)
+						}
+					}
+					if signer == a && mut == 0 && cum.Cmp(hi) > 0 {
+						hi = cum
+					}
+					l += fmt.Sprintf(" %d 0 %s %d %d", a, cum.String(), signer, mut)
+				}
+				if hi.Cmp(cumOf(a)) > 0 {
+					last[a] = hi
+					genuine = append(genuine, gen{a, hi})
+					valid++
+				}
+				c.Ops = append(c.Ops, l)
+				adv++
 			case 17, 18:
 				c.Ops = append(c.Ops, "last "+strconv.Itoa(r.Intn(4)))
 				obs++
@@ -159,10 +236,11 @@ type runner struct {
 	rev    map[int]int      // address -> peer
 	maxAcc map[int]*big.Int // highest accepted cumulative payout per issuer
 	sumAmt map[int]*big.Int // Σ amounts returned by the store per issuer
+	sigs   map[string][]byte // signature per (content, key), so that reuse is byte-exact
 }
 
 func (prop) New() core.Runner {
-	return &runner{env: settle.NewEnv(), fwd: map[int]int{}, rev: map[int]int{}, maxAcc: map[int]*big.Int{}, sumAmt: map[int]*big.Int{}}
+	return &runner{env: settle.NewEnv(), fwd: map[int]int{}, rev: map[int]int{}, maxAcc: map[int]*big.Int{}, sumAmt: map[int]*big.Int{}, sigs: map[string][]byte{}}
 }
 func (rn *runner) Close() { rn.env.Close() }
 
@@ -231,6 +309,352 @@ func get(m map[int]*big.Int, k int) *big.Int {
 	return big.NewInt(0)
 }
 
+// sign builds the cheque and signs it with key `signer` (mutations: 1 corrupt, 2 truncate, 3 empty).
+// The signature of a given (content, key) is computed once per case, so a later op that names the
+// same content gets exactly the same signature bytes.
+func (rn *runner) sign(ben, rcp int, cum *big.Int, signer, mut int) (*chequePkg.SignedCheque, bool) {
+	key := fmt.Sprintf("%d/%d/%s/%d", ben, rcp, cum.String(), signer)
+	sig, ok := rn.sigs[key]
+	if !ok {
+		sc, err := settle.SignCheque(settle.Addr(ben), settle.Addr(rcp), cum, signer)
+		if err != nil {
+			return nil, false
+		}
+		sig = sc.Signature
+		rn.sigs[key] = sig
+	}
+	sc := &chequePkg.SignedCheque{Cheque: chequePkg.Cheque{Recipient: settle.Addr(rcp), Beneficiary: settle.Addr(ben), CumulativePayout: new(big.Int).Set(cum)},
+		Signature: append([]byte(nil), sig...)}
+	switch mut {
+	case 1:
+		sc.Signature[7] ^= 0x40
+	case 2:
+		sc.Signature = sc.Signature[:40]
+	case 3:
+		sc.Signature = nil
+	}
+	return sc, true
+}
+
+// recovered is the oracle field for the model: what the real (stateless) recovery says.
+func recovered(sc *chequePkg.SignedCheque) string {
+	if a, err := chequePkg.RecoverCheque(sc, settle.ChainID); err == nil {
+		if id := settle.AddrID(a, nAddrs); id >= 0 {
+			return strconv.Itoa(id)
+		}
+		return "unk"
+	}
+	return "err"
+}
+
+// deliver hands one cheque to the service (p >= 0) or to the cheque store (p < 0) and evaluates
+// the acceptance conditions of the property on the outcome, without the model.
+func (rn *runner) deliver(ctx *core.Ctx, p int, sc *chequePkg.SignedCheque, ben, rcp int, cum *big.Int, genuine bool, how string) string {
+	ctx.Annotate("rec=" + recovered(sc))
+	owner := -2 // the peer the issuer's address is registered for
+	if rp, ok := rn.rev[ben]; ok {
+		owner = rp
+	}
+	beforeAll, beforeOthers := rn.credits(-2), rn.credits(owner)
+	rn.env.CS.Take()
+	var amount *big.Int
+	var err error
+	if p >= 0 {
+		err = rn.env.Svc.ReceiveCheque(context.Background(), settle.Peer(p), sc)
+		if rs := rn.env.CS.Take(); len(rs) == 1 && rs[0].Err == nil {
+			amount = rs[0].Amount
+		} else if err == nil {
+			ctx.Fail("accept-without-store", "service accepted but the cheque store did not accept exactly once")
+		}
+	} else {
+		amount, err = rn.env.CS.ReceiveCheque(context.Background(), sc)
+	}
+	afterAll, afterOthers := rn.credits(-2), rn.credits(owner)
+	if err != nil {
+		if beforeAll != afterAll {
+			ctx.Fail("reject-changed-credit", "rejected cheque changed the credits: [%s] -> [%s]", beforeAll, afterAll)
+		}
+		return errWord(err)
+	}
+	rn.accepted(ctx, p, ben, rcp, cum, genuine, how, amount)
+	if p >= 0 && beforeOthers != afterOthers {
+		ctx.Fail("credit-other-peer", "cheque of issuer %d (address registered for peer %d) changed the credit of other peers: [%s] -> [%s]", ben, owner, beforeOthers, afterOthers)
+	}
+	if get(rn.sumAmt, ben).Cmp(get(rn.maxAcc, ben)) != 0 {
+		ctx.Fail("credit-sum", "issuer %d: sum of credited amounts %s != highest accepted cumulative payout %s", ben, get(rn.sumAmt, ben), get(rn.maxAcc, ben))
+	}
+	if amount == nil {
+		return "ok ?"
+	}
+	return "ok " + amount.String()
+}
+
+// accepted: the four conditions of the property for one accepted cheque, and the shadow totals.
+func (rn *runner) accepted(ctx *core.Ctx, p, ben, rcp int, cum *big.Int, genuine bool, how string, amount *big.Int) {
+	if rcp != 0 {
+		ctx.Fail("accept-wrong-recipient", "accepted a cheque for recipient id %d", rcp)
+	}
+	if !genuine {
+		ctx.Fail("accept-bad-signature", "accepted a cheque of issuer %d for %s %s", ben, cum, how)
+	}
+	if cum.Cmp(get(rn.maxAcc, ben)) <= 0 {
+		ctx.Fail("accept-not-increasing", "accepted cumulative %s <= highest accepted %s of issuer %d", cum, get(rn.maxAcc, ben), ben)
+	}
+	if p >= 0 {
+		if a, ok := rn.fwd[p]; !ok || a != ben {
+			ctx.Fail("accept-foreign-issuer", "peer %d (registered address %d, known=%v) delivered a cheque of issuer %d and it was accepted", p, a, ok, ben)
+		}
+	}
+	if amount != nil {
+		rn.sumAmt[ben] = new(big.Int).Add(get(rn.sumAmt, ben), amount)
+	}
+	if cum.Cmp(get(rn.maxAcc, ben)) > 0 {
+		rn.maxAcc[ben] = cum
+	}
+}
+
+type parItem struct {
+	ben, rcp, signer, mut int
+	cum                   *big.Int
+	sc                    *chequePkg.SignedCheque
+	gid                   string
+	done                  bool
+	err                   error
+	amount                *big.Int
+}
+
+// parrecv <via> <k> (<ben> <rcp> <cum> <signer> <mut>)*k : k cheques delivered concurrently to the
+// cheque store (via = s) or through the service by peer <via>.  Every read of a last-received-cheque
+// record is parked after it was done; the runner releases the parked reads once every delivery is
+// parked at such a read, waits for a mutex inside ReceiveCheque, or has returned — so deliveries that
+// CAN overlap between the read and the store DO overlap, deterministically.
+func (rn *runner) parrecv(ctx *core.Ctx, op []string, atoi func(string) (int, bool)) string {
+	p := -1
+	if op[1] != "s" {
+		var ok bool
+		if p, ok = atoi(op[1]); !ok || p >= nPeers {
+			return "bad-op"
+		}
+	}
+	k, ok := atoi(op[2])
+	if !ok || k < 1 || k > 4 || len(op) != 3+5*k {
+		return "bad-op"
+	}
+	items := make([]*parItem, k)
+	for j := 0; j < k; j++ {
+		f := op[3+5*j:]
+		ben, ok1 := atoi(f[0])
+		rcp, ok2 := atoi(f[1])
+		cum, ok3 := new(big.Int).SetString(f[2], 10)
+		signer, ok4 := atoi(f[3])
+		mut, ok5 := atoi(f[4])
+		if !ok1 || !ok2 || !ok3 || !ok4 || !ok5 || ben >= nAddrs || rcp >= nAddrs || signer >= settle.NKeys || mut > 3 || cum.Sign() < 0 {
+			return "bad-op"
+		}
+		sc, ok := rn.sign(ben, rcp, cum, signer, mut)
+		if !ok {
+			return "bad-op"
+		}
+		items[j] = &parItem{ben: ben, rcp: rcp, signer: signer, mut: mut, cum: cum, sc: sc}
+	}
+	recs := make([]string, k)
+	for j, it := range items {
+		recs[j] = recovered(it.sc)
+	}
+	beforeAll := rn.credits(-2)
+	rn.env.CS.Take()
+	gate := rn.env.Gate
+	gate.GateReads("traffic_last_received_cheque_")
+	var mu sync.Mutex
+	var wg sync.WaitGroup
+	for j := range items {
+		it := items[j]
+		ready := make(chan struct{})
+		wg.Add(1)
+		go func() {
+			defer wg.Done()
+			it.gid = settle.GoroutineID()
+			close(ready)
+			var a *big.Int
+			var err error
+			if p >= 0 {
+				err = rn.env.Svc.ReceiveCheque(context.Background(), settle.Peer(p), it.sc)
+			} else {
+				a, err = rn.env.CS.ReceiveCheque(context.Background(), it.sc)
+			}
+			mu.Lock()
+			it.done, it.err, it.amount = true, err, a
+			mu.Unlock()
+		}()
+		<-ready
+	}
+	// schedule: release the parked reads whenever nobody can make progress without it
+	var order []int // deliveries in the order in which they read the last-cheque record
+	seen := map[int]bool{}
+	deadline := time.Now().Add(20 * time.Second)
+	stuck := false
+	for spin := 0; ; spin++ {
+		parked := gate.ParkedList()
+		byGid := map[string]*settle.Parked{}
+		for _, pk := range parked {
+			if pk.Read {
+				byGid[pk.Tag] = pk
+			}
+		}
+		for _, pk := range parked { // arrival order = order of the reads
+			for j, it := range items {
+				if pk.Read && pk.Tag == it.gid && !seen[j] {
+					seen[j] = true
+					order = append(order, j)
+				}
+			}
+		}
+		allDone, quiet := true, true
+		for _, it := range items {
+			mu.Lock()
+			d := it.done
+			mu.Unlock()
+			if d {
+				continue
+			}
+			allDone = false
+			if _, pk := byGid[it.gid]; pk {
+				continue
+			}
+			if spin > 20 && settle.LockWait(it.gid, "(*chequeStore).ReceiveCheque", "(*Service).ReceiveCheque") {
+				continue
+			}
+			quiet = false
+		}
+		if allDone {
+			break
+		}
+		if quiet {
+			// confirm once more before releasing (a goroutine seen in Lock may have been about to get it)
+			time.Sleep(200 * time.Microsecond)
+			again := true
+			for _, it := range items {
+				mu.Lock()
+				d := it.done
+				mu.Unlock()
+				if d {
+					continue
+				}
+				found := false
+				for _, pk := range gate.ParkedList() {
+					if pk.Read && pk.Tag == it.gid {
+						found = true
+					}
+				}
+				if !found && !settle.LockWait(it.gid, "(*chequeStore).ReceiveCheque", "(*Service).ReceiveCheque") {
+					again = false
+				}
+			}
+			if again {
+				for _, pk := range gate.ParkedList() {
+					if pk.Read {
+						for j, it := range items {
+							if pk.Tag == it.gid && !seen[j] {
+								seen[j] = true
+								order = append(order, j)
+							}
+						}
+						gate.Release(pk, nil)
+					}
+				}
+			}
+			continue
+		}
+		if time.Now().After(deadline) {
+			stuck = true
+			break
+		}
+		if spin < 50 {
+			runtime.Gosched()
+		} else {
+			time.Sleep(100 * time.Microsecond)
+		}
+	}
+	gate.GateReads()
+	for _, pk := range gate.ParkedList() {
+		if pk.Read {
+			gate.Release(pk, nil)
+		}
+	}
+	wg.Wait()
+	if stuck {
+		return "stuck"
+	}
+	for j := range items {
+		if !seen[j] {
+			order = append(order, j)
+		}
+	}
+	ords := make([]string, k)
+	for i, j := range order {
+		ords[i] = strconv.Itoa(j)
+	}
+	ctx.Annotate("rec="+strings.Join(recs, ","), "ord="+strings.Join(ords, ","))
+	// amounts of deliveries through the service come from the recording cheque store
+	if p >= 0 {
+		for _, rr := range rn.env.CS.Take() {
+			for _, it := range items {
+				if rr.Cheque == it.sc && rr.Err == nil {
+					it.amount = rr.Amount
+				}
+			}
+		}
+	}
+	// ---- oracle (model-free)
+	nacc := 0
+	accByContent := map[string]int{}
+	var out []string
+	for _, j := range order { // shadow totals follow the order of the reads (any order gives the same sums)
+		it := items[j]
+		if it.err != nil {
+			continue
+		}
+		nacc++
+		genuine := it.mut == 0 && it.signer == it.ben
+		accByContent[fmt.Sprintf("%d/%d/%s", it.ben, it.rcp, it.cum)]++
+		if it.amount == nil {
+			ctx.Fail("accept-without-store", "service accepted but the cheque store did not report an amount")
+		}
+		rn.accepted(ctx, p, it.ben, it.rcp, it.cum, genuine, fmt.Sprintf("signed by key %d (mutation %d), delivered concurrently", it.signer, it.mut), it.amount)
+	}
+	for c, n := range accByContent {
+		if n > 1 {
+			ctx.Fail("par-replay-accepted-twice", "the same cheque (issuer/recipient/amount %s) delivered concurrently was accepted %d times", c, n)
+		}
+	}
+	issuers := map[int]bool{}
+	for _, it := range items {
+		issuers[it.ben] = true
+	}
+	for b := range issuers {
+		if get(rn.sumAmt, b).Cmp(get(rn.maxAcc, b)) != 0 {
+			ctx.Fail("par-credit-sum", "issuer %d: after concurrent deliveries the credited amounts sum to %s, highest accepted cumulative payout is %s", b, get(rn.sumAmt, b), get(rn.maxAcc, b))
+		}
+		if c, err := rn.env.CS.LastReceivedCheque(settle.Addr(b)); err == nil && c.CumulativePayout.Cmp(get(rn.maxAcc, b)) != 0 {
+			ctx.Fail("par-last-not-max", "issuer %d: stored last received cheque %s, highest accepted cumulative payout %s", b, c.CumulativePayout, get(rn.maxAcc, b))
+		}
+	}
+	if nacc == 0 && beforeAll != rn.credits(-2) {
+		ctx.Fail("reject-changed-credit", "rejected cheques changed the credits: [%s] -> [%s]", beforeAll, rn.credits(-2))
+	}
+	for _, it := range items {
+		switch {
+		case it.err != nil:
+			out = append(out, errWord(it.err))
+		case it.amount == nil:
+			out = append(out, "ok:?")
+		default:
+			out = append(out, "ok:"+it.amount.String())
+		}
+	}
+	return strings.Join(out, " ")
+}
+
 func (rn *runner) Step(ctx *core.Ctx, op []string) string {
 	atoi := func(s string) (int, bool) {
 		v, err := strconv.Atoi(s)
@@ -267,81 +691,44 @@ func (rn *runner) Step(ctx *core.Ctx, op []string) string {
 		if !ok1 || !ok2 || !ok3 || !ok4 || !ok5 || ben >= nAddrs || rcp >= nAddrs || signer >= settle.NKeys || mut > 3 || cum.Sign() < 0 {
 			return "bad-op"
 		}
-		sc, err := settle.SignCheque(settle.Addr(ben), settle.Addr(rcp), cum, signer)
-		if err != nil {
+		sc, ok := rn.sign(ben, rcp, cum, signer, mut)
+		if !ok {
 			return "bad-op"
 		}
-		switch mut {
-		case 1:
-			sc.Signature[7] ^= 0x40
-		case 2:
-			sc.Signature = sc.Signature[:40]
-		case 3:
-			sc.Signature = nil
-		}
-		// oracle field for the model: what the real recovery says
-		rec := "rec=err"
-		if a, err := chequePkg.RecoverCheque(sc, settle.ChainID); err == nil {
-			if id := settle.AddrID(a, nAddrs); id >= 0 {
-				rec = "rec=" + strconv.Itoa(id)
-			} else {
-				rec = "rec=unk"
-			}
-		}
-		ctx.Annotate(rec)
 		genuine := mut == 0 && signer == ben // the stated issuer really signed this cheque
-		owner := -2 // the peer the issuer's address is registered for
-		if rp, ok := rn.rev[ben]; ok {
-			owner = rp
-		}
-		beforeAll, beforeOthers := rn.credits(-2), rn.credits(owner)
-		rn.env.CS.Take()
-		var amount *big.Int
-		if op[0] == "recv" {
-			err = rn.env.Svc.ReceiveCheque(context.Background(), settle.Peer(p), sc)
-			if rs := rn.env.CS.Take(); len(rs) == 1 && rs[0].Err == nil {
-				amount = rs[0].Amount
-			} else if err == nil {
-				ctx.Fail("accept-without-store", "service accepted but the cheque store did not accept exactly once")
+		return rn.deliver(ctx, p, sc, ben, rcp, cum, genuine, fmt.Sprintf("signed by key %d (mutation %d)", signer, mut))
+	case (len(op) == 9 && op[0] == "xrecv") || (len(op) == 8 && op[0] == "sxrecv"):
+		// a cheque (ben, rcp, cum) that carries exactly the signature bytes key `osigner` made for (oben, orcp, ocum)
+		f := op[1:]
+		p := -1
+		if op[0] == "xrecv" {
+			var ok bool
+			if p, ok = atoi(op[1]); !ok || p >= nPeers {
+				return "bad-op"
 			}
-		} else {
-			amount, err = rn.env.CS.ReceiveCheque(context.Background(), sc)
+			f = op[2:]
 		}
-		afterAll, afterOthers := rn.credits(-2), rn.credits(owner)
-		if err != nil {
-			if beforeAll != afterAll {
-				ctx.Fail("reject-changed-credit", "rejected cheque changed the credits: [%s] -> [%s]", beforeAll, afterAll)
-			}
-			return errWord(err)
+		ben, ok1 := atoi(f[0])
+		rcp, ok2 := atoi(f[1])
+		cum, ok3 := new(big.Int).SetString(f[2], 10)
+		oben, ok4 := atoi(f[3])
+		orcp, ok5 := atoi(f[4])
+		ocum, ok6 := new(big.Int).SetString(f[5], 10)
+		osigner, ok7 := atoi(f[6])
+		if !ok1 || !ok2 || !ok3 || !ok4 || !ok5 || !ok6 || !ok7 || ben >= nAddrs || rcp >= nAddrs || oben >= nAddrs || orcp >= nAddrs ||
+			osigner >= settle.NKeys || cum.Sign() < 0 || ocum.Sign() < 0 {
+			return "bad-op"
 		}
-		// ---- accepted: the four conditions of the property, evaluated without the model
-		if rcp != 0 {
-			ctx.Fail("accept-wrong-recipient", "accepted a cheque for recipient id %d", rcp)
+		orig, ok := rn.sign(oben, orcp, ocum, osigner, 0)
+		if !ok {
+			return "bad-op"
 		}
-		if !genuine {
-			ctx.Fail("accept-bad-signature", "accepted a cheque of issuer %d signed by key %d (mutation %d)", ben, signer, mut)
-		}
-		if cum.Cmp(get(rn.maxAcc, ben)) <= 0 {
-			ctx.Fail("accept-not-increasing", "accepted cumulative %s <= highest accepted %s of issuer %d", cum, get(rn.maxAcc, ben), ben)
-		}
-		if op[0] == "recv" {
-			if a, ok := rn.fwd[p]; !ok || a != ben {
-				ctx.Fail("accept-foreign-issuer", "peer %d (registered address %d, known=%v) delivered a cheque of issuer %d and it was accepted", p, a, ok, ben)
-			}
-			if beforeOthers != afterOthers {
-				ctx.Fail("credit-other-peer", "cheque of issuer %d (address registered for peer %d) changed the credit of other peers: [%s] -> [%s]", ben, owner, beforeOthers, afterOthers)
-			}
-		}
-		if amount != nil {
-			rn.sumAmt[ben] = new(big.Int).Add(get(rn.sumAmt, ben), amount)
-		}
-		if cum.Cmp(get(rn.maxAcc, ben)) > 0 {
-			rn.maxAcc[ben] = cum
-		}
-		if get(rn.sumAmt, ben).Cmp(get(rn.maxAcc, ben)) != 0 {
-			ctx.Fail("credit-sum", "issuer %d: sum of credited amounts %s != highest accepted cumulative payout %s", ben, get(rn.sumAmt, ben), get(rn.maxAcc, ben))
-		}
-		return "ok " + amount.String()
+		sc := &chequePkg.SignedCheque{Cheque: chequePkg.Cheque{Recipient: settle.Addr(rcp), Beneficiary: settle.Addr(ben), CumulativePayout: new(big.Int).Set(cum)},
+			Signature: append([]byte(nil), orig.Signature...)}
+		genuine := osigner == ben && oben == ben && orcp == rcp && ocum.Cmp(cum) == 0
+		return rn.deliver(ctx, p, sc, ben, rcp, cum, genuine, fmt.Sprintf("carrying the signature key %d made for the cheque (issuer %d, recipient %d, %s)", osigner, oben, orcp, ocum))
+	case len(op) >= 3 && op[0] == "parrecv":
+		return rn.parrecv(ctx, op, atoi)
 	case len(op) == 2 && op[0] == "last":
 		p, ok := atoi(op[1])
 		if !ok || p >= nPeers {
